@@ -597,6 +597,8 @@ Proof.
   destruct (hoist_member c inner span acc0 p) as [[[t a] q]|] eqn:E.
   - intros H; inversion H; subst. apply hoist_member_ns in E; [|exact NSM]. destruct E as [X A].
     unfold ns_acc in X. rewrite A in X. cbn [acc0 a_args a_assigns mul fold_right] in X.
+    assert (W : mu (if is_kind KParen lhs then mk_paren (span_of lhs) t else t) = mu t).
+    { destruct (is_kind KParen lhs); [apply ns_mk_paren | reflexivity]. }
     split; [lia | exact A].
   - intros H; inversion H; subst. split; [simpl; lia | reflexivity].
 Qed.
